@@ -11,6 +11,7 @@ import TealerModel.Lemmas.Dfs
 import TealerModel.Props.Common
 import TealerModel.Lemmas.Asserted
 import TealerModel.Props.Tie
+import TealerModel.Lemmas.EvalRun
 namespace Tealer.C01
 
 /-- a context that admits a fresh address in RekeyTo is not "validated" by rekey-to -/
@@ -171,6 +172,31 @@ theorem C01_tie_validated (chk : Ctx → Bool) (c : BlockCtx) (i : Option Nat) :
     validatedInBlock chk c i = Generated.validatedInBlock chk c.self c.gtxn c.self.indices i := by
   unfold validatedInBlock Generated.validatedInBlock
   cases i <;> simp
+
+/-- FROM THE CONCRETE RUN TO THE ASSERTED SETS.  For any straight run of the concrete machine through the first `k`
+    instructions (dedicated opcodes) of a block there is an assignment `valOf` of the values really pushed to the producer
+    references of the block's stack AST such that, for every analysis whose domain over-approximates (`GammaLaws`) and whose
+    leaf matcher is sound for the ACTUAL truth of the leaves ("the value the leaf instruction pushed is non-zero"), the sets
+    `_get_asserted` computes for any single-output instruction `p` of the run admit the governed value `v`: the true set when
+    the value the AVM pushed at `p` is non-zero, the false set when it is zero.  This composes the value-level simulation
+    (`C11_block_operands`), the realisation of the condition tree (`EvalRun.eval_realized`) and `getAsserted_sound`; what
+    remains per domain is the soundness of the leaf matcher itself (C06-C09). -/
+theorem C01_asserted_of_run {D V : Type} [DecidableEq D] {A : Analysis D} {γ : D → V → Prop} (L : Flow.GammaLaws A γ)
+    (prog : List Ins) (e : Avm.Env) (blockIns : List Ins) (pc0 k : Nat) (st : Nat → Avm.State)
+    (hrun : OperandValues.BlockRun prog e blockIns pc0 k st) :
+    ∃ valOf : Nat × Nat → Avm.Val,
+      (∀ j, j < k → ∀ i, i < (blockIns[j]!).op.pushes →
+        (st (j + 1)).stack[(st j).stack.length - (blockIns[j]!).op.pops + i]? = some (valOf (j, i))) ∧
+      ∀ (ic : Option (List Nat)) (key : Key) (v : V), γ (A.univ key.base) v →
+        (∀ p, (EvalRun.truthy (valOf (p, 0)) = true → γ (A.single ic (constructAst blockIns) key p).1 v) ∧
+              (EvalRun.truthy (valOf (p, 0)) = false → γ (A.single ic (constructAst blockIns) key p).2 v)) →
+        ∀ n p, p < k → (blockIns[p]!).op.pushes = 1 →
+          (EvalRun.truthy (valOf (p, 0)) = true → γ (getAsserted A ic (constructAst blockIns) key n p).1 v) ∧
+          (EvalRun.truthy (valOf (p, 0)) = false → γ (getAsserted A ic (constructAst blockIns) key n p).2 v) := by
+  obtain ⟨valOf, hout, hev⟩ := EvalRun.eval_realized prog e blockIns pc0 st k hrun
+  refine ⟨valOf, hout, ?_⟩
+  intro ic key v huniv hs n p hp hpush
+  exact Asserted.getAsserted_sound L ic key v huniv hs n p 0 _ (hev p hp hpush)
 
 example : checksField .feeCheck { maxFee := 1000 } = true ∧ checksField .feeCheck {} = false := by decide
 
